@@ -32,4 +32,60 @@ theorem concurrent_eq_sequential (env : Env) (rules : List Expr) (inputs : List 
   simp only [Function.comp]
   rw [run_congr env { env with facts := v } rfl, ruleset_adequacy]
 
+/-- polling one evaluation touches no other: the tasks share the ruleset and the functions, nothing mutable -/
+theorem poll_is_local {α : Type} (env : Env) (susp : Str → Value → Nat → Nat) :
+    ∀ (ts : List (Task α)) (i j : Nat), i ≠ j → (pollAt env susp i ts)[j]? = ts[j]? := by
+  intro ts
+  induction ts with
+  | nil => intro i j _; simp [pollAt]
+  | cons t ts ih =>
+    intro i j hij
+    cases i with
+    | zero =>
+      cases j with
+      | zero => exact absurd rfl hij
+      | succ j' => simp [pollAt]
+    | succ i' =>
+      cases j with
+      | zero => simp [pollAt]
+      | succ j' => simpa [pollAt] using ih i' j' (by omega)
+
+theorem pollAt_length {α : Type} (env : Env) (susp : Str → Value → Nat → Nat) :
+    ∀ (ts : List (Task α)) (i : Nat), (pollAt env susp i ts).length = ts.length := by
+  intro ts
+  induction ts with
+  | nil => intro i; simp [pollAt]
+  | cons t ts ih => intro i; cases i <;> simp [pollAt, ih]
+
+/-- no schedule creates or loses an evaluation -/
+theorem schedule_keeps_tasks {α : Type} (env : Env) (susp : Str → Value → Nat → Nat) (sched : List Nat) (ts : List (Task α)) :
+    (runSched env susp sched ts).length = ts.length := by
+  induction sched generalizing ts with
+  | nil => rfl
+  | cons i rest ih => simp only [runSched]; rw [ih, pollAt_length]
+
+theorem pollAt_done {α : Type} (env : Env) (susp : Str → Value → Nat → Nat) (a : α) (p : Nat) :
+    ∀ (ts : List (Task α)) (i j : Nat), ts[j]? = some ⟨.done a, p⟩ → (pollAt env susp i ts)[j]? = some ⟨.done a, p⟩ := by
+  intro ts i j h
+  by_cases hij : i = j
+  · subst hij
+    induction ts generalizing i with
+    | nil => simp at h
+    | cons t ts ih =>
+      cases i with
+      | zero =>
+        simp only [List.getElem?_cons_zero, Option.some.injEq] at h
+        subst h
+        simp [pollAt, pollTask]
+      | succ i' => simpa [pollAt] using ih i' (by simpa using h)
+  · rw [poll_is_local env susp ts i j hij]; exact h
+
+/-- a finished evaluation keeps its result whatever is polled afterwards, by whomever -/
+theorem finished_stays_finished {α : Type} (env : Env) (susp : Str → Value → Nat → Nat) (sched : List Nat)
+    (ts : List (Task α)) (j : Nat) (a : α) (p : Nat) (h : ts[j]? = some ⟨.done a, p⟩) :
+    (runSched env susp sched ts)[j]? = some ⟨.done a, p⟩ := by
+  induction sched generalizing ts with
+  | nil => exact h
+  | cons i rest ih => simp only [runSched]; exact ih _ (pollAt_done env susp a p ts i j h)
+
 end Reval.C18
